@@ -197,8 +197,16 @@ func init() {
 			if err := json.Unmarshal(raw, &h); err != nil {
 				fatal(err)
 			}
-			shard := n % c.shards
 			n++
+			// thorough: histories of length 5 are many - every fourth is replayed, and the query family is
+			// observed after the last operation only (every prefix is the end of a shorter history's sibling)
+			if c.thorough() && n%4 != 0 {
+				return
+			}
+			shard := (n / 4) % c.shards
+			if !c.thorough() {
+				shard = n % c.shards
+			}
 			q := quadtree.New(orb.Bound{Min: orb.Point{0, 0}, Max: orb.Point{256, 256}})
 			ptrs := map[int]*qtPtr{}
 			next := 1
@@ -211,7 +219,11 @@ func init() {
 				setCurrent("quadtree."+o.Op, h)
 				e, site := qtApply(q, ptrs, &next, bnd, o.Op, p, o.ID)
 				if site == "" {
-					site = guard(func() { qtObserve(q, &e, qs, i%2 == 1) })
+					obs := qs
+					if c.thorough() && i < len(h.H)-1 {
+						obs = &qtQueries{}
+					}
+					site = guard(func() { qtObserve(q, &e, obs, i%2 == 1) })
 				}
 				if site != "" {
 					c.emitTo(shard, panicEvent("quadtree."+o.Op, site, h))
